@@ -4,8 +4,9 @@ from .. import common, family, mapcase
 
 PROPS_FILES = ['theories/Props/C12.v']
 FINDINGS_FILES = []
-LEVEL = 'other'
-TRUSTED = ['Model/Mapping.v normalise (per-section parsing is modelled as one document), Model/Engine.v; rdflib graph merging of several mapping files is not modelled (correspondence only)']
+LEVEL = 'proof'
+TRUSTED = ['the theorems are stated on rule tables (engine level) for RDF-star-free rules; splitting over files / sections, rdflib graph merging and the duplicate-identifier rejection of validate_mappings are decided by the correspondence part of this check only',
+           'Model/Mapping.v normalise (per-section parsing is modelled as one document), Model/Engine.v; rdflib graph merging of several mapping files is not modelled (correspondence only)']
 ASSUMES = ['triples maps are spread so that every map stays in the same section as the maps it references (a section is parsed into its own graph)']
 EX = mapcase.EX
 
